@@ -43,6 +43,10 @@ def main(argv=None) -> int:
             report.CURRENT = None
             try:
                 r = mod.run(ctx, args.tier)
+                # a rule that matched nothing decides nothing: fail the run rather than pass vacuously
+                for rid_, rr_ in r.rules.items():
+                    if not rr_.get("obligations") and not [f_ for f_ in r.findings if f_.rule == rid_]:
+                        r.floor_errors.append("rule %s has no instance on this tree (anchor moved, or a shared rule was cut)" % rid_)
                 if r.floor_errors and not r.findings:
                     raise AnalysisError("; ".join(r.floor_errors))
                 return r
